@@ -540,6 +540,7 @@ func lookupArshaler(t reflect.Type) *arshaler {
 	fncs := makeDefaultArshaler(t)
 	fncs = makeMethodArshaler(fncs, t)
 	fncs = makeTimeArshaler(fncs, t)
+	verifPoint(0)
 
 	// Use the last stored so that duplicate arshalers can be garbage collected.
 	v, _ := lookupArshalerCache.LoadOrStore(t, fncs)
